@@ -67,6 +67,7 @@ func structTags(c *Ctx, pkgRel, typeName string) (map[string]string, map[string]
 }
 
 func runC12(c *Ctx) {
+	runC12Extra(c)
 	const pkg = "service/transaction"
 	t2f, opt, tags := structTags(c, pkg, "transactionV3Data")
 	if len(tags) < 10 {
@@ -349,6 +350,24 @@ func runC12(c *Ctx) {
 				if k, ok := mu.Key.(*ssa.Const); ok {
 					s, _ := strconv.Unquote(k.Value.ExactString())
 					keys[s] = render(mu.Value)
+					// a signed field is emitted whenever it is present: the only condition is `field != nil`
+					for _, g := range guardsAt(mu) {
+						p := predOf(g)
+						if p.Kind == "bool" && strings.HasSuffix(p.A, ".raw") {
+							continue
+						}
+						okG := p.Kind == "differ" && (p.A == "nil" || p.B == "nil") || (p.Kind == "same" && (p.A == "nil" || p.B == "nil"))
+						if p.Kind == "ne" || p.Kind == "eq" {
+							// len(x) != 0 style presence tests on the same field are fine
+							okG = false
+							for a := range p.L.T {
+								if strings.HasPrefix(a, "len(") && p.L.K == 0 {
+									okG = true
+								}
+							}
+						}
+						c.check(okG, "C12.tojson-keys", "JSON key "+s+" is emitted whenever the field is present", mu.Pos(), "only nil/empty tests", "key "+s+" is emitted only under "+p.String()+": a transaction that carried the field with that value loses it on a JSON round trip and its id changes")
+					}
 				}
 			}
 		}
@@ -406,4 +425,101 @@ func v3Exclusion(c *Ctx, pkgRel string) map[string]bool {
 		})
 	}
 	return out
+}
+
+// runC12Extra: rules added after independently produced mutants were missed.
+func runC12Extra(c *Ctx) {
+	const pk = "service/transaction"
+	// the cached id is computed by the raw-aware hash of the transaction itself
+	if fn := c.mustFn(pk, "transactionV3", "TxHash"); fn != nil {
+		n := 0
+		for _, fs := range fieldStores([]*ssa.Function{fn}, "transactionV3", "txHash") {
+			for _, fl := range flowsOf(fs.Store.Val, nil) {
+				ex, isEx := fl.Src.(*ssa.Extract)
+				if !isEx {
+					continue // the empty-id marker
+				}
+				n++
+				cl, isCall := ex.Tuple.(*ssa.Call)
+				okC := isCall && strings.HasSuffix(calleeName(cl.Common()), "transaction.transactionV3).calcHash")
+				if okC {
+					r, _ := callArgs(cl.Common())
+					okC = render(r) == "$r"
+				}
+				c.check(okC, "C12.raw-id", "TxHash caches the raw-aware hash of the transaction", fs.Store.Pos(), "tx.calcHash()", "TxHash caches "+render(fl.Src)+": a transaction stored as raw JSON gets the id of its parsed fields after a reload")
+			}
+		}
+		c.check(n >= 1, "C12.raw-id", "TxHash computes the id", fn.Pos(), fmt.Sprint(n), "no computed id stored")
+	}
+	if fn := c.mustFn(pk, "transactionV3", "calcHash"); fn != nil {
+		v3, _ := c.constVal(pk, "Version3")
+		for _, cs := range c.calls(fn, byCallee("transaction.calcHashOfTransactionJSON")) {
+			_, a := callArgs(cs.Common())
+			k, isK := constInt(a[1])
+			c.check(isK && k == v3 && render(a[0]) == "$r.bytes", "C12.raw-id", "the raw id is hashed with the version-3 exclusion set over the stored bytes", cs.Pos(), "calcHashOfTransactionJSON(tx.bytes, Version3)", "raw transactions are hashed as version "+render(a[1]))
+			c.requireAt("C12.raw-id", "raw hash only for raw transactions", cs.Instr, wTrue("raw", `^\$r\.raw$`))
+		}
+	}
+	// the salt is an exact-capacity constant: appending to it never writes into shared storage
+	if init := c.spkg(pk).Func("init"); init != nil {
+		n := 0
+		for _, b := range init.Blocks {
+			for _, in := range b.Instrs {
+				st, ok := in.(*ssa.Store)
+				if !ok {
+					continue
+				}
+				g, ok := st.Addr.(*ssa.Global)
+				if !ok || g.Name() != "transactionSaltBytes" {
+					continue
+				}
+				n++
+				cv, isConv := st.Val.(*ssa.Convert)
+				_, isK := ssa.Value(nil), false
+				if isConv {
+					_, isK = cv.X.(*ssa.Const)
+				}
+				c.check(isConv && isK, "C12.serializer-provenance", "the id salt is a conversion of a string constant (exact capacity)", st.Pos(), "[]byte(\"…\")", "the salt slice is built with spare capacity: append(salt, …) writes every transaction's serialisation into one shared array, so concurrent id computations corrupt each other")
+			}
+		}
+		c.check(n == 1, "C12.serializer-provenance", "salt initialised once", token.NoPos, "1", fmt.Sprint(n))
+	}
+	for _, fn := range c.pkgFuncs(pk) {
+		for _, b := range fn.Blocks {
+			for _, in := range b.Instrs {
+				st, ok := in.(*ssa.Store)
+				if !ok {
+					continue
+				}
+				if g, ok := st.Addr.(*ssa.Global); ok && g.Name() == "transactionSaltBytes" && fn.Name() != "init" {
+					c.violate("C12.serializer-provenance", "the id salt is constant", st.Pos(), fnName(fn)+" reassigns the salt")
+				}
+			}
+		}
+	}
+	// null is serialised with the escape character, so it cannot collide with any string or number
+	if fn := c.mustFn(pk, "", "serializeValue"); fn != nil {
+		n := 0
+		for _, e := range exitAlts(fn) {
+			if _, isNil := holds(e.Guards, wSame("v == nil", `^\$0$`, `^nil`)); !isNil {
+				continue
+			}
+			n++
+			okE := false
+			if cv, ok := e.Results[0].(*ssa.Convert); ok {
+				if k, ok := cv.X.(*ssa.Const); ok {
+					sv, _ := strconv.Unquote(k.Value.ExactString())
+					okE = len(sv) >= 2 && sv[0] == '\\'
+				}
+			}
+			if sl, ok := e.Results[0].(*ssa.Slice); ok {
+				if el, ok2 := varargElems(sl); ok2 && len(el) >= 2 {
+					k0, _ := constInt(el[0])
+					okE = k0 == '\\'
+				}
+			}
+			c.check(okE, "C12.escape-set", "null is serialised as an escape sequence", e.pos(), "\\0", "null serialises as "+render(e.Results[0])+", which a string or number can also produce: two different transactions share one id")
+		}
+		c.check(n >= 1, "C12.escape-set", "serializeValue handles null", fn.Pos(), fmt.Sprint(n), "no nil case")
+	}
 }
